@@ -320,6 +320,7 @@ type runner struct {
 	// pathbadger: a child of a pending candidate that holds a non-zero pending sequence number was
 	// accepted (known finding finKeyPathPipe): every later answer of this backend may depend on
 	// misread nodes
+	lost     map[int]string // badger: node id -> finding key of the Finalize that deleted it while still in use
 	tainted  bool
 	seqCount map[string]int // "ver/typ" -> batches that reserved a sequence number
 	seqOf    map[string]int // "ver/rid" -> sequence number of the batch that created the root
@@ -372,7 +373,7 @@ func newRunner(kind string, pl *plan) (*runner, error) {
 		return nil, err
 	}
 	r := &runner{kind: kind, dir: dir, pl: pl, seen: map[string]bool{}, nodeID: map[hash.Hash]int{}, reach: map[int][]int{}, inl: map[int][]int{},
-		putAt: map[int]map[int]bool{}, stats: map[string]int{}, lastBad: map[string]bool{}, putsBy: map[string]map[int]bool{}, removedBy: map[string]map[int]bool{}, seqCount: map[string]int{}, seqOf: map[string]int{}}
+		putAt: map[int]map[int]bool{}, stats: map[string]int{}, lastBad: map[string]bool{}, putsBy: map[string]map[int]bool{}, removedBy: map[string]map[int]bool{}, seqCount: map[string]int{}, seqOf: map[string]int{}, lost: map[int]string{}}
 	r.rec = &recDB{NodeDB: ndb}
 	r.ndb = r.rec
 	r.ref = refState{present: map[uint64]map[int]bool{}, derived: map[string][]int{}, finalized: map[uint64]bool{}}
@@ -669,6 +670,41 @@ func (r *runner) step(op Op) (o opObs) {
 				r.lastFinal = append(r.lastFinal, rid)
 			}
 		}
+		if r.kind == "badger" {
+			// nodes this Finalize deleted although a kept root still contains them (possibly only as an
+			// attached leaf, so the loss shows up later when the node is needed stand-alone)
+			finalPuts := map[int]bool{}
+			for _, f := range r.lastFinal {
+				for n := range r.putsBy[vr(op.Ver, f)] {
+					finalPuts[n] = true
+				}
+			}
+			mark := func(n int, key string) {
+				if finalPuts[n] {
+					return
+				}
+				for _, f := range r.lastFinal {
+					for _, m := range r.reach[f] {
+						if m == n {
+							if _, ok := r.lost[n]; !ok {
+								r.lost[n] = key
+							}
+							return
+						}
+					}
+				}
+			}
+			for _, d := range r.lastDiscarded {
+				for n := range r.putsBy[vr(op.Ver, d)] {
+					mark(n, finKeyFinReput)
+				}
+			}
+			for _, f := range r.lastFinal {
+				for n := range r.removedBy[vr(op.Ver, f)] {
+					mark(n, finKeyFinRemoved)
+				}
+			}
+		}
 		r.ref.finalized[op.Ver] = true
 		if !r.ref.hasLast {
 			r.ref.earliest = op.Ver
@@ -725,6 +761,9 @@ func (r *runner) oracle(op Op, o *opObs) {
 					k = r.finalizeShape(op.Ver, ro)
 				}
 			}
+			if k == "" {
+				k = r.lostKey(ro)
+			}
 			report(k, what)
 			if r.kind == "badger" {
 				r.stopOracle = true // the store lost a node: everything later is a consequence
@@ -735,8 +774,13 @@ func (r *runner) oracle(op Op, o *opObs) {
 				continue
 			}
 			r.lastBad[key] = true
-			report("", fmt.Sprintf("%s: pending candidate root (version %d, root #%d) is not readable after %s(%d): has=%v status=%s",
+			k := r.lostKey(ro)
+			report(k, fmt.Sprintf("%s: pending candidate root (version %d, root #%d) is not readable after %s(%d): has=%v status=%s",
 				r.kind, ro.ver, ro.rid, op.K, op.Ver, ro.has, stName(ro.status)))
+			if k != "" {
+				r.stopOracle = true
+				return
+			}
 		case !finalized && !pending && ro.has && ro.status != stExact:
 			if r.lastBad[key] {
 				continue
@@ -787,6 +831,26 @@ func (r *runner) oracle(op Op, o *opObs) {
 
 func stName(s int) string {
 	return []string{"absent", "exact", "node-missing", "root-not-found", "wrong-contents", "other-error", "panic"}[s]
+}
+
+// lostKey: badger only; every node the root misses was deleted by an earlier Finalize in one of
+// the known shapes (recorded in r.lost when it happened).
+func (r *runner) lostKey(ro rootObs) string {
+	if r.kind != "badger" || ro.status != stNodeMissing {
+		return ""
+	}
+	missing := r.missingNodes(ro)
+	key := ""
+	for n := range missing {
+		k, ok := r.lost[n]
+		if !ok {
+			return ""
+		}
+		if key == "" || k == finKeyFinReput {
+			key = k
+		}
+	}
+	return key
 }
 
 func (r *runner) missingNodes(ro rootObs) map[int]bool {
